@@ -96,7 +96,8 @@ _state: dict[str, Any] = {}
 
 
 def setup_worker(env: core.Env) -> None:
-    fs = core.new_fs()
+    # the instance also carries nop_regexes that no statement of this check starts with: data is never what they look at
+    fs = core.new_fs(nop_regexes=["call", "grant", r"alter\s+session"])
     conn = fs.connect("db1", "s1")
     conn2 = fs.connect("db1", "s2")
     c2 = conn2.cursor()
